@@ -18,7 +18,11 @@ EXPLANATION = (
     "the underlying read having returned 0 bytes (directly, or through a flag that is only set there) or on the "
     "reader being absent, so an empty record cannot end the file early; callers stop only on None; (OUT) the "
     "output mapping is the documented normalisation, as a table check: for every kept input byte c, either its "
-    "code is < 16 and CNV_NUM[code] == upper(c), or its code is >= 16 and both output sites map it to 'N'.")
+    "code is < 16 and CNV_NUM[code] == upper(c), or its code is >= 16 and both output sites map it to 'N'; (NAME) the "
+    "contig-name delta codec clauses of C03 (run-length counting, cap, token split/join), since a record whose "
+    "name reads back differently does not equal the input; (LINE) the record reader appends every sequence line it "
+    "reads and tests a line's raw length only against zero (shared with C19-G3), so no base is lost to the way "
+    "lines are wrapped or terminated.")
 UNDECIDED = "the full claim 'extracts without error' (depends on the data behaviour of C01/C09)"
 
 
@@ -30,6 +34,26 @@ def run(F, rep):
     S = c09.alpha_rules(F, rep, "C16")
     eof_rules(F, rep)
     out_rules(F, rep)
+    # (NAME) contig names are part of "equals the input": the name codec clauses of C03 are necessary here too
+    from rules import c03
+    sub = type(rep)(rep.pid, rep.tier)
+    c03.run(F, sub)
+    n = 0
+    for o in sub.obligations:
+        if o["rule"] in ("C03-NAME", "C03-RUN"):
+            n += 1
+            rep.ob("C16-NAME", o["instance"], o["ok"], detail=o["detail"], site=o["site"], how=o["how"], key=o["key"].replace(o["rule"], "C16-NAME"))
+    rep.floor("C16-NAME", n, 7, "contig-name codec clauses shared with C03")
+    # (LINE) no sequence line is dropped by the record reader (shared with C19-G3)
+    from rules import c19
+    sub = type(rep)(rep.pid, rep.tier)
+    c19.run(F, sub)
+    n = 0
+    for o in sub.obligations:
+        if o["key"] in ("C19-G3 | raw line length test", "C19-G3 | no skipped line", "C19-G3 | append lines"):
+            n += 1
+            rep.ob("C16-LINE", o["instance"], o["ok"], detail=o["detail"], site=o["site"], how=o["how"], key=o["key"].replace("C19-G3", "C16-LINE"))
+    rep.floor("C16-LINE", n, 4, "line-handling clauses of the record reader shared with C19")
 
 
 def eof_rules(F, rep):
